@@ -145,6 +145,12 @@ class NamespaceFunction(Namespace[symtable.Function]):
                 # which is not need here
                 self.zero_arg_super_used = True
                 continue
+            if nonlocal_free == "__class__" and any(
+                isinstance(outer, NamespaceClass) for outer in stack
+            ):
+                # a function nested in a method which uses super or __class__:
+                # the __class__ cell belongs to the class, it is a plain name here
+                continue
 
             for outer in reversed(stack):
                 if isinstance(outer, NamespaceClass):
